@@ -77,11 +77,11 @@ func genDocMapping(r *Rng, depth int, usedCustom *bool) *mapping.DocumentMapping
 		dm.StructTagKey = "json"
 	}
 	// containers that are allocated but empty: JSON leaves them out (omitempty) and gives back nil
-	if len(dm.Fields) == 0 && r.Chance(25) {
+	if len(dm.Fields) == 0 && r.Chance(50) {
 		dm.Fields = []*mapping.FieldMapping{}
 		c16EmptyContainers++
 	}
-	if len(dm.Properties) == 0 && r.Chance(25) {
+	if len(dm.Properties) == 0 && r.Chance(40) {
 		dm.Properties = map[string]*mapping.DocumentMapping{}
 		c16EmptyContainers++
 	}
@@ -234,7 +234,7 @@ func canonField(f document.Field) string {
 }
 
 func runC16(t *Trace, r *Rng, tier string, _ []string) {
-	nMap, nDocs := 60, 12
+	nMap, nDocs := 240, 12
 	if tier == "thorough" {
 		nMap, nDocs = 3000, 25
 	}
